@@ -17,7 +17,9 @@ class WorkerBase(Task):
     def common(self, ex, nd):
         ctx = ex.ctx
         ctx.ghost["ndims"] = nd
-        path, F = sym_path(ctx, "F")
+        # ARBITRARY directories (the soundness tasks): the binary file may or may not be there to be opened; well-formed inputs (the
+        # completeness tasks): it exists
+        path, F = sym_path(ctx, "F", exists=not getattr(self, "arbitrary_directory", False))
         n, nf = z3.Ints("n nf")
         OFF = z3.Function("OFF", I, I)
         BID = z3.Function("BID", I, I)
@@ -55,7 +57,8 @@ class WorkerBase(Task):
 
 class HeadersSound(WorkerBase):
     """mp_fun_headers on ARBITRARY file content: a None result means that at every recorded offset a line parses to
-    that box's index range and the plotfile's field count."""
+    that box's index range and the plotfile's field count (in particular: that the file could be opened)."""
+    arbitrary_directory = True
 
     def __init__(self, prop, nd):
         self.prop, self.nd = prop, nd
@@ -78,6 +81,8 @@ class HeadersSound(WorkerBase):
     def post(self, ex, inp, out):
         g = inp["g"]
         if out.kind == "ret" and out.value is None:
+            from pyvc.libfile import f_exists
+            ex.ctx.oblige("post.none-implies-the-binary-file-could-be-opened", f_exists(g["F"]), "P")
             ex.ctx.oblige("post.none-implies-every-recorded-header-matches", g["checked"](g["n"]), "P")
         else:
             ex.ctx.oblige("post.other-outcomes-are-error-or-exception",
@@ -133,6 +138,8 @@ class ShapeBase(WorkerBase):
 
 
 class ShapeSound(ShapeBase):
+    arbitrary_directory = True
+
     """mp_fun_shape on ARBITRARY content: None means the file is exactly hdrline(box j) + payload(j) for the task's
     boxes in order, each header at its recorded offset, the last payload ending at end of file."""
 
@@ -175,6 +182,8 @@ class ShapeSound(ShapeBase):
                                                     z3.And(g["canon_at"](j), S(j) == g["OFF"](j)))),
                           S(n) == f_size(g["F"]))
             ex.ctx.add_pc(g["step"](n - 1))
+            from pyvc.libfile import f_exists
+            ex.ctx.oblige("post.none-implies-the-binary-file-could-be-opened", f_exists(g["F"]), "P")
             ex.ctx.oblige("post.none-implies-file-is-exactly-the-recorded-fabs", cons, "P")
         else:
             ex.ctx.oblige("post.other-outcomes-are-error-or-exception",
